@@ -28,6 +28,7 @@ import EPV.Gen.EPPistonFin
 import EPV.Gen.EPPistonRun
 import EPV.Lemmas.EPPiston
 import EPV.Lemmas.EPPistonModels
+import EPV.Lemmas.EPPistonExists
 import EPV.Tactics
 
 set_option linter.all false
@@ -154,6 +155,11 @@ theorem fin_residual_iff (p : EPPistonFin.P) (h : EPPistonFin.outcome p = .ok) (
        rw [hr2, hp2] at hp'
        simp only [mieGruneisen] at hp'
        linear_combination hp')
+
+/-- non-vacuity of `outcome = ok ∧ Consistent` (default problem); `plastic_residual = 0` is the fsolve
+atom: the tie checks on every run that the real constructor's `wv_pl` makes it vanish -/
+example : ∃ p : EPPistonIfin.P, EPPistonIfin.outcome p = .ok ∧ ifinConsistent p :=
+  ⟨ifinDefault, ifinDefault_ok.1, ifinDefault_ok.2⟩
 
 end
 
